@@ -124,7 +124,7 @@ def instance(cls, env):
 
 OPERAND_SLOTS = ["arith_left", "arith_right", "cmp_left", "cmp_right", "bool_right", "not", "neg", "in_term", "in_elem", "between_term", "between_lo",
                  "fn_arg", "case_when", "case_then", "case_else", "tuple_elem", "array_elem", "isnull", "where_root", "having_root", "on_root",
-                 "win_partition", "win_order", "select_arith", "select_fn_arg", "insert_value", "insert_row_last", "update_set_value", "orderby_expr", "groupby_expr", "conflict_target", "values_fn_arg", "attz_field", "extract_field", "cast_arg", "bool_left", "bool_or_left", "period_term", "period_bound", "like_pattern", "json_operand", "update_orderby"]
+                 "win_partition", "win_order", "select_arith", "select_fn_arg", "insert_value", "insert_row_last", "update_set_value", "orderby_expr", "groupby_expr", "conflict_target", "values_fn_arg", "attz_field", "extract_field", "cast_arg", "bool_left", "bool_or_left", "period_term", "period_bound", "like_pattern", "json_operand", "update_orderby", "all_operand"]
 DEFINING = ["select", "select_last", "returning", "distinct_on"]
 # the same operand slots with the enclosing expression as a select-list item (the one clause rendered with with_alias=True), and with it as
 # an aliased select-list item: the operand's alias must not appear, the item's own alias exactly once
@@ -238,6 +238,10 @@ def statement(cls_name, pos, X, as_selectable=False):
         return base.select(fn.Cast(X, "INT"))
     elif pos == "update_orderby":
         return Q.update(t).set(d, 1).where(c == 1).orderby(X).limit(3)  # rendered by MySQL (and SQLite / PostgreSQL builders), ignored by the others
+    elif pos == "all_operand":
+        from pypika_tortoise.terms import All
+
+        w = d > All(X)
     elif pos == "bool_left":
         w = X & (d == 1)
     elif pos == "bool_or_left":
